@@ -453,7 +453,7 @@ def build_package(srcdir, op):
 NODES = [uuid.UUID(int=0x1000 + i) for i in range(8)]
 
 
-def perform(directory, op, source=None, handles=None):
+def perform(directory, op, source=None, handles=None, done=None):
     """Run one operation exactly the way the platform does; returns what forml reported.  ``handles``: generation objects
     kept from earlier operations of the history (a long-lived runner / instance): reused, not re-resolved."""
     from forml import project as prj
@@ -467,6 +467,9 @@ def perform(directory, op, source=None, handles=None):
             directory.get(package.manifest.name).put(package)
         except Exception as err:  # pylint: disable=broad-except
             return {'accepted': False, 'error': f'{type(err).__name__}: {err}'[:200], 'type': type(err).__name__}
+        finally:
+            if done:
+                done()
         return {'accepted': True}
     if handles is not None and (op['project'], op['release'], op['generation']) in handles:
         generation = handles[op['project'], op['release'], op['generation']]
@@ -480,7 +483,11 @@ def perform(directory, op, source=None, handles=None):
         tag = generation.tag.training.trigger()
         state = asset.State(generation, nodes, tag=tag)
         sids = [state.dump(b) for b in blobs]
-        state.commit(sids)
+        try:
+            state.commit(sids)
+        finally:
+            if done:  # (what follows is this harness reading the outcome back, no longer the platform's operation)
+                done()
         created = state._generation  # pylint: disable=protected-access
         return {'sids': [str(s) for s in sids], 'tag': c05_view.tag_view(tag.replace(states=sids)), 'generation': int(created.key),
                 'release': str(created.release.key)}
@@ -1118,8 +1125,120 @@ def other_filesystem(scratch, label):
     return None
 
 
+def check_transient_scan_errors(ctx, scratch):
+    """A directory scan failing ONCE with an I/O error (EIO, ESTALE, EMFILE, EACCES) while a training or a publish runs: the
+    operation either fails and a fresh reader sees the registry as it was, or it reports success and the reader sees exactly
+    one new item on top - it never reports success having put the item somewhere else."""
+    import errno
+    import pathlib
+
+    from vlib import c05_view, projgen
+
+    base = os.path.join(scratch, 'scanfault')
+    root = os.path.join(base, 'registry')
+    publish = {'op': 'publish', 'project': 'pa', 'version': '1.0', 'kind': 'directory', 'payload': 1, 'extra': 1, 'big': False,
+               'relation': 'first'}
+    source, _ = build_package(os.path.join(base, 'src'), publish)
+    perform(projgen.directory(root), publish, source)
+    for number in range(3):
+        perform(projgen.directory(root), {'op': 'train', 'project': 'pa', 'release': '1.0', 'generation': None,
+                                          'states': [{'seed': 100 + number, 'len': 7}, {'seed': 200 + number, 'len': 64}]})
+        c05_view.forget()
+    higher = dict(publish, version='2.0', payload=2)
+    higher_source, _ = build_package(os.path.join(base, 'src'), higher)
+    operations = [
+        ('train', {'op': 'train', 'project': 'pa', 'release': '1.0', 'generation': None, 'states': [{'seed': 7, 'len': 9}]}, None),
+        ('train-explicit', {'op': 'train', 'project': 'pa', 'release': '1.0', 'generation': 2, 'states': [{'seed': 8, 'len': 9}]}, None),
+        ('publish', higher, higher_source),
+        ('publish-equal', dict(publish, payload=3), build_package(os.path.join(base, 'src'), dict(publish, payload=3))[0]),
+    ]
+    iterdir = pathlib.Path.iterdir
+
+    def faulty(trigger, code, calls):
+        def scan(self):
+            if str(self).startswith(calls['root']) and not calls.get('off'):
+                calls['n'] += 1
+                if calls['n'] == trigger:
+                    raise OSError(code, os.strerror(code), str(self))
+            return iterdir(self)
+
+        return scan
+
+    for label, op, src in operations:
+        # how many scans of the registry the operation makes (on a copy)
+        copy = os.path.join(base, f'count-{label}')
+        shutil.copytree(root, copy)
+        calls = {'n': 0, 'root': copy}
+        pathlib.Path.iterdir = faulty(0, 0, calls)
+        try:
+            c05_view.forget()
+            perform(projgen.directory(copy), op, src, done=lambda c=calls: c.update(off=True))
+        except Exception:  # pylint: disable=broad-except
+            pass
+        finally:
+            pathlib.Path.iterdir = iterdir
+        scans = calls['n']
+        ctx.note_max('scans_per_operation', scans)
+        def anonymous(view):  # state ids are random: compare what is where, not under which id
+            import re
+
+            text = re.sub(r'[0-9a-f]{8}-[0-9a-f]{4}-[0-9a-f]{4}-[0-9a-f]{4}-[0-9a-f]{12}', '#', json.dumps(view, sort_keys=True, default=str))
+            return json.loads(re.sub(r'\d{4}-\d\d-\d\dT[0-9:.]+', 'T', text))  # (nor when it was trained)
+
+        want_after = anonymous(c05_view.posix_view(copy))
+        shutil.rmtree(copy, ignore_errors=True)
+        before = anonymous(c05_view.posix_view(root))
+        for trigger in range(1, scans + 1):
+            for code in (errno.EIO, errno.ESTALE, errno.EMFILE, errno.EACCES)[:ctx.pick(2, 4)]:
+                ctx.count('evaluations')
+                ctx.count('scan_faults_injected')
+                ctx.shape(('scan-fault', label, trigger, errno.errorcode[code]))
+                copy = os.path.join(base, f'fault-{label}-{trigger}-{code}')
+                shutil.copytree(root, copy)
+                calls = {'n': 0, 'root': copy}
+                pathlib.Path.iterdir = faulty(trigger, code, calls)
+                outcome = 'ok'
+                try:
+                    c05_view.forget()
+                    result = perform(projgen.directory(copy), op, src, done=lambda c=calls: c.update(off=True))
+                    if result.get('accepted') is False:
+                        outcome = result['error']
+                except Exception as err:  # pylint: disable=broad-except
+                    outcome = f'{type(err).__name__}: {err}'[:160]
+                finally:
+                    pathlib.Path.iterdir = iterdir
+                after = anonymous(c05_view.posix_view(copy))
+                shutil.rmtree(copy, ignore_errors=True)
+                witness = {'scan_fault': label, 'trigger': trigger, 'errno': errno.errorcode[code]}
+                if outcome == 'ok' and label.startswith('publish-equal'):
+                    ctx.violation('scan-fault-equal-version-published', f'{label}: with scan #{trigger} failing once '
+                                  f'({errno.errorcode[code]}) a release of an existing version was accepted', witness)
+                elif outcome == 'ok' and after != want_after:
+                    ctx.violation(f'scan-fault-{label.split("-")[0]}-reported-success-registry-differs', f'{label}: with scan #{trigger} failing '
+                                  f'once ({errno.errorcode[code]}) the operation reported success but a fresh reader sees '
+                                  f'{diff_views(after, want_after)[:3]}', witness)
+                elif outcome != 'ok' and after != before:
+                    ctx.violation(f'scan-fault-{label.split("-")[0]}-failed-registry-changed', f'{label}: with scan #{trigger} failing once '
+                                  f'({errno.errorcode[code]}) the operation failed ({outcome}) and a fresh reader sees '
+                                  f'{diff_views(after, before)[:3]}', witness)
+                else:
+                    ctx.count('scan_fault_failed_cleanly' if outcome != 'ok' else 'scan_fault_survived')
+    shutil.rmtree(base, ignore_errors=True)
+
+
+def diff_views(left, right, path=''):
+    if isinstance(left, dict) and isinstance(right, dict):
+        out = []
+        for key in sorted(set(left) | set(right), key=str):
+            out += diff_views(left.get(key, '<absent>'), right.get(key, '<absent>'), f'{path}/{key}')
+        return out
+    return [] if left == right else [f'{path}: {str(left)[:80]} != {str(right)[:80]}']
+
+
 def run(ctx):
     scratch = tempfile.mkdtemp(prefix='c05-')
+    if ctx.shard == 1 % ctx.nshards:
+        check_transient_scan_errors(ctx, scratch)
     jobs = [('directed', i, ops, True) for i, ops in enumerate(DIRECTED)]
     for index in range(histories(ctx.tier)):
         rng = ctx.rng('history', index)
